@@ -69,6 +69,11 @@ impl RecoveryThread {
                     thread.join().ok();
                 }
 
+                #[cfg(humphrey_verif)]
+                crate::thread::pool::verif_trace::push(
+                    crate::thread::pool::verif_trace::Event::Recover(panicking_thread),
+                );
+
                 // Start a new thread with the same ID.
                 let restarted_thread = Thread::new(
                     panicking_thread,
@@ -97,7 +102,13 @@ impl RecoveryThread {
 impl Drop for PanicMarker {
     fn drop(&mut self) {
         if panicking() {
+            #[cfg(humphrey_verif)]
+            let trace_guard = crate::thread::pool::verif_trace::push_and_hold(
+                crate::thread::pool::verif_trace::Event::Notify(self.0),
+            );
             self.1.send(self.0).ok();
+            #[cfg(humphrey_verif)]
+            drop(trace_guard);
         }
     }
 }
